@@ -839,15 +839,15 @@ _COPIES = tuple(f'copy:{h}:{k}' for h in ('copy', 'copy.copy', 'deepcopy', 'pick
     + tuple(f'copy:freeze:{k}' for k in MUT_K) + tuple(f'copy:thaw:{k}' for k in FROZEN_K)
 
 SUBCHECKS = [
-    Sub('range', exec_range, strategy=history_strategy, quick=3000, thorough=120000, floor=300,
+    Sub('range', exec_range, strategy=history_strategy, quick=8000, thorough=160000, quick_shards=8, floor=300,
         must_hit=_OPS + ('has_angle', 'num:fed_back', 'to_angle:Matrix', 'to_angle:FrozenMatrix', 'transform:Angle',
                          'amul:Angle:imul', 'set:Angle', 'ang_from_basis:Angle', 'ang_from_basis:FrozenAngle')
         + tuple(f'{f}:{l}@{r}' for f in ('matmul', 'imatmul') for l in ANG_K for r in ROT_K)),
-    Sub('frozen', exec_frozen, strategy=history_strategy, quick=3000, thorough=120000, floor=300, must_hit=_OPS + _MATMUL),
-    Sub('copies', exec_copies, strategy=history_strategy, quick=3000, thorough=120000, floor=300, must_hit=_OPS + _COPIES),
-    Sub('text', exec_text, strategy=history_strategy_text, quick=2000, thorough=80000, floor=200,
+    Sub('frozen', exec_frozen, strategy=history_strategy, quick=8000, thorough=160000, quick_shards=8, floor=300, must_hit=_OPS + _MATMUL),
+    Sub('copies', exec_copies, strategy=history_strategy, quick=8000, thorough=160000, quick_shards=8, floor=300, must_hit=_OPS + _COPIES),
+    Sub('text', exec_text, strategy=history_strategy_text, quick=5000, thorough=100000, quick_shards=8, floor=200,
         must_hit=_OPS + ('text:normal', 'text:big')),
-    Sub('fmtfloat', exec_fmt, strategy=fmt_strategy, quick=6000, thorough=300000, floor=1000,
+    Sub('fmtfloat', exec_fmt, strategy=fmt_strategy, quick=16000, thorough=400000, floor=1000,
         must_hit=('fmt:zero', 'fmt:<5e-7', 'fmt:<1', 'fmt:<1e15', 'fmt:>=1e15', 'fmt:tiny_negative')),
 ]
 
